@@ -611,16 +611,22 @@ def bounded(tier, seed):
 
 def replay(rec):
     R = Recorder("replay")
-    target = str(rec.get("target") or "")
+    target = str(rec.get("target") or "") + " " + str(rec.get("case") or "")
     model = rec.get("model") or {}
+    names = sorted({_cls(s) for s in _registry("quick")}, key=len, reverse=True)
+    tokens = [t for t in target.replace(":", ".").replace("/", ".").replace(" ", ".").split(".") if t]
     only = None
-    cls = target.split(".")[-2] if target.count(".") >= 1 and target.split(".")[-1][:1].islower() else target.split(".")[-1]
-    for cand in (cls, target.split(".")[-1]):
-        if cand and any(cand in s.name for s in _registry("quick")):
-            only = cand
+    for cand in names:                                     # the class named by the target, if it is one of the runnable ones
+        if cand in tokens or any(cand.lower() == t.lower().lstrip("_") for t in tokens):
+            only = cand + "("
             break
-    n = max(2, min(6, mint(model, "n_instances", 4)))
-    m = max(8, min(16, mint(model, "n_timepoints", 10)))
-    _drive(R, "quick", mint(model, "seed", 0), only=only, scen=[(n + 2, n, m), (9, 3, 8)], budget=40)
-    return {"reproduced": bool(R.failures), "detail": R.failures[:3],
-            "input": {"estimators": only or "all runnable", "scenarios": [[n + 2, n, m], [9, 3, 8]]}}
+    vals = [v for v in (mint(model, k, 0) for k in ("n_instances", "num_insts", "n", "n_timepoints", "num_atts", "m")) if v > 0]
+    n = max(2, min(6, mint(model, "n_instances", 0) or mint(model, "num_insts", 0) or mint(model, "n", 0) or 4))
+    m = max(8, min(16, mint(model, "n_timepoints", 0) or mint(model, "num_atts", 0) or mint(model, "m", 0) or 10))
+    scen = [(n + 2, n, m), (9, 3, 8), (5, 4, 14)]
+    _drive(R, "quick", mint(model, "seed", 0), only=only, scen=scen, budget=40)
+    # a known finding (KF:) counts as a reproduction only if the replayed target is the class it is about
+    f = [x for x in R.failures if only is not None or not x["key"].startswith("KF:")]
+    f.sort(key=lambda x: x["key"].startswith("KF:"))
+    return {"reproduced": bool(f), "detail": f[:3],
+            "input": {"estimators": only or "all runnable", "scenarios (train, test, length)": [list(x) for x in scen], "model values used": vals}}
